@@ -3,9 +3,13 @@ from vlib import harness, refmodel, specs, world
 from vlib.util import uncanon
 
 
-def all_refs_output(spec):
+def all_refs_output(spec, lits=True):
+    """Output naming every referenceable node; with lits=False literals are left out (a literal that is
+    an argument of the output is never a candidate for literal pruning)."""
     refs = []
     for i, nd in enumerate(spec["nodes"]):
+        if nd["k"] == "lit" and not lits:
+            continue
         if nd["k"] == "unpack":
             refs.extend({"u": i, "j": j} for j in range(nd["n"]))
         elif nd["k"] == "gather" and ("n" in nd["v"] or "u" in nd["v"]):
